@@ -30,7 +30,7 @@ WRAPPED = ("service", "received", "handle_read", "handle_write", "handle_close",
            "write_soon", "_flush_outbufs_below_high_watermark", "send_continue", "_flush_exception",
            "_flush_some", "_flush_some_if_lockable", "cancel")
 
-COVERED = {"worker_close", "flushed", "maint", "handle_close", "handle_close_w", "eof", "cancel_wc", "cancel_conn"}
+COVERED = {"worker_close", "flushed", "maint", "handle_close", "eof", "cancel_wc", "cancel_conn"}
 UNCOVERED = {"flush_err_io", "flush_err_w"}
 
 
@@ -151,7 +151,7 @@ class CloseWorld(World):
             fr[1] += 1
             if fr[1] > 1:
                 return None          # wasyncore.dispatcher.close(): the same decision again
-            return "handle_close" if is_io else "handle_close_w"
+            return "handle_close" if is_io else "handle_close_by_worker"
         if top == "handle_read":
             return "eof"
         return "other_conn"
@@ -579,10 +579,6 @@ def abstract(world):
             continue
         # inside service()
         ph = st["ph"]
-        if i in st.get("cont", {}):
-            emit(i, W + ":cont11")
-            st["ph"] = "rel"
-            continue
         if kind == "W:will_close" and "_flush_exception" in c:
             emit(i, W + ":fe")
             continue
@@ -630,22 +626,9 @@ def abstract(world):
                 emit(i, W)
                 st["ph"] = "keep_rq" if val else "keep_e"
             elif ph == "keep_e":
-                # the elif: is send_continue called, and does it close?
-                sc = False
-                trig = None
-                depth = None
-                for j, (t2, k2, d2) in following(i):
-                    if k2 == "release" and d2 == rlock and top(ctx_at[j]) == "service":
-                        break
-                    if k2 == "enter" and d2 == "send_continue":
-                        sc = True
-                    if sc and k2 == "W:connected" and top(ctx_at[j]) == "handle_close" and trig is None:
-                        trig = j
-                if trig is not None:
-                    st.setdefault("cont", {})[trig] = True
-                else:
-                    emit(i, W + ":cont%d0" % int(sc))
-                    st["ph"] = "rel"
+                # the elif (then possibly send_continue(do_close=False): no model effect)
+                emit(i, W)
+                st["ph"] = "rel"
             elif ph in ("tail", "task", "rel"):
                 pass
             else:
@@ -683,10 +666,6 @@ def abstract(world):
         if kind == "release" and d == rlock:
             emit(i, W)
             st["ph"] = "tail"
-            continue
-        if kind == "W:last_activity" and ph == "tail":
-            emit(i, W)
-            st["ph"] = "idle"
             continue
         if kind in ("W:will_close", "W:connected"):
             raise MapError("service: unmodelled write %r" % (ev[i],))
@@ -912,7 +891,8 @@ def make_policy(rng, kind, est=200):
 # add_task calls, in program order.  Printed from the source by shape_of(); compared verbatim.
 AUDITED_ATTRS = ("will_close", "close_when_flushed", "connected", "requests")
 AUDITED_CALLS = ("add_task", "handle_close", "send_continue", "_flush_exception", "received", "pull_trigger",
-                 "_flush_outbufs_below_high_watermark", "cancel", "close", "service")
+                 "_flush_outbufs_below_high_watermark", "cancel", "close", "service", "_flush_some", "send")
+SHOW_KW = ("do_close",)
 
 SIGNATURE = {
     "channel.HTTPChannel.readable":
@@ -991,7 +971,8 @@ class _Shape(ast.NodeVisitor):
                 f = n.func
                 name = f.attr if isinstance(f, ast.Attribute) else (f.id if isinstance(f, ast.Name) else None)
                 if name in AUDITED_CALLS:
-                    found.append((n.lineno, n.col_offset + 10000 if False else n.col_offset, "call:" + name))
+                    kws = ["%s=%s" % (k.arg, ast.unparse(k.value)) for k in n.keywords if k.arg in SHOW_KW]
+                    found.append((n.lineno, n.col_offset, "call:" + name + ("(%s)" % ",".join(kws) if kws else "")))
         found.sort()
         return [x[2] for x in found]
 
